@@ -257,10 +257,10 @@ Lemma flatten_in_coh : forall sep self p d, coh p d self = true -> coh p d (fst 
 Proof.
   intros sep self p d Hc. destruct self as [|[] bs dv nm es]; try exact Hc. cbn [flatten_in].
   destruct (Nat.ltb _ _); [exact Hc|].
-  match goal with |- context [seq_steps ?f ?l ?s] => pose proof (seq_steps_inv _ f (fun s => coh p d s = true) l s Hc) as Hs end.
+  match goal with |- context [seq_steps ?f ?l ?s0] => pose proof (seq_steps_inv _ f (fun x => coh p d x = true) l s0 Hc) as Hs end.
   match type of Hs with ?A -> _ => assert (HA : A) end.
-  { intros a s _ Hcs. now apply rename_key_coh. }
+  { intros a x _ Hcs. now apply rename_key_coh. }
   specialize (Hs HA).
-  match goal with |- context [seq_steps ?f ?l ?s] => destruct (seq_steps f l s) as [s1 o1] end. cbn [fst] in Hs.
+  match goal with |- context [seq_steps ?f ?l ?s0] => destruct (seq_steps f l s0) as [s1 o1] end. cbn [fst] in Hs.
   destruct o1; try exact Hs. now apply exclude_in_coh.
 Qed.
